@@ -9,9 +9,6 @@ variable {VH : Type}
 
 /-! ### `bitsLt` is a strict total order -/
 
-theorem bitsLt_irrefl : ∀ (a : List Bool), bitsLt a a = false
-  | [] => rfl
-  | x :: xs => by simp [bitsLt, bitsLt_irrefl xs]
 
 theorem bitsLt_trans : ∀ {a b c : List Bool}, bitsLt a b = true → bitsLt b c = true → bitsLt a c = true
   | [], [], _, h, _ => by simp [bitsLt] at h
